@@ -5,6 +5,7 @@ package props
 import (
 	"fmt"
 	"go/ast"
+	"go/constant"
 	"go/token"
 	"go/types"
 	"sort"
@@ -170,6 +171,17 @@ func (fl *c09Flow) client() kit.Client {
 		if r := fl.roleOf(e, s); r != "" {
 			if b, ok := fl.info.TypeOf(e).Underlying().(*types.Basic); ok && b.Info()&types.IsBoolean != 0 {
 				return r, false, true
+			}
+		}
+		// role-tagged boolean compared with a constant: v == false, true != v
+		if x, y, op, ok := kit.CmpAtom(e); ok && (op == token.EQL || op == token.NEQ) {
+			if fl.roleOf(x, s) == "" {
+				x, y = y, x
+			}
+			if r := fl.roleOf(x, s); r != "" {
+				if tv, ok := fl.info.Types[y]; ok && tv.Value != nil && tv.Value.Kind() == constant.Bool {
+					return r, constant.BoolVal(tv.Value) != (op == token.EQL), true
+				}
 			}
 		}
 		// len(<role var>) against the zero boundary
@@ -566,47 +578,101 @@ func c09IsString(t types.Type) bool {
 	return ok && b.Info()&types.IsString != 0
 }
 
-// c09UserFields returns the field objects of the e-mail and password of
-// data.User: the fields filled from the points of type email / pass are the
-// string fields tagged `point:"email"` / `point:"pass"`.
+// c09UserFields returns the field objects of the e-mail and password of the
+// user struct of package data: the fields that the node→user converters fill
+// from the points of type email / pass (composite-literal form `F: v` with
+// `v, _ := ….Text(PointTypeEmail, …)`, or switch form `case PointTypeEmail:
+// x.F = p.Text`).
 func c09UserFields(c *kit.Ctx) (email, pass *types.Var) {
-	dp := c.P.MustPkg("data")
 	emailT, passT := dataConst(c, "PointTypeEmail"), dataConst(c, "PointTypePass")
-	sc := dp.Types.Scope()
-	for _, name := range sc.Names() {
-		tn, ok := sc.Lookup(name).(*types.TypeName)
-		if !ok {
+	set := func(dst **types.Var, v *types.Var) {
+		if *dst != nil && *dst != v {
+			c.Fatalf("package data fills two different fields from the same credential point: %s and %s", (*dst).Name(), v.Name())
+		}
+		*dst = v
+	}
+	for _, f := range c.P.Funcs("data") {
+		if f.Body == nil || f.Decl == nil {
 			continue
 		}
-		st, ok := tn.Type().Underlying().(*types.Struct)
-		if !ok {
-			continue
-		}
-		var e, p *types.Var
-		for i := 0; i < st.NumFields(); i++ {
-			tag := st.Tag(i)
-			for _, part := range strings.Fields(tag) {
-				if v, ok := strings.CutPrefix(part, `point:"`); ok {
-					v = strings.TrimSuffix(v, `"`)
-					v = strings.Split(v, ",")[0]
-					switch v {
-					case emailT:
-						e = st.Field(i)
-					case passT:
-						p = st.Field(i)
+		info := f.Info()
+		// variables defined from a call that names the point type
+		src := map[types.Object]string{}
+		ast.Inspect(f.Body, func(n ast.Node) bool {
+			as, ok := n.(*ast.AssignStmt)
+			if !ok || len(as.Rhs) != 1 {
+				return true
+			}
+			call, ok := ast.Unparen(as.Rhs[0]).(*ast.CallExpr)
+			if !ok {
+				return true
+			}
+			for _, arg := range call.Args {
+				if v, ok := kit.ConstString(info, arg); ok && (v == emailT || v == passT) {
+					if o := kit.ObjOf(info, as.Lhs[0]); o != nil {
+						src[o] = v
 					}
 				}
 			}
-		}
-		if e != nil && p != nil {
-			if email != nil {
-				c.Fatalf("more than one struct of package data carries both e-mail and password points")
+			return true
+		})
+		ast.Inspect(f.Body, func(n ast.Node) bool {
+			switch x := n.(type) {
+			case *ast.CompositeLit:
+				if _, ok := info.TypeOf(x).Underlying().(*types.Struct); !ok {
+					return true
+				}
+				for _, el := range x.Elts {
+					kv, ok := el.(*ast.KeyValueExpr)
+					if !ok {
+						continue
+					}
+					fld, _ := kit.ObjOf(info, kv.Key).(*types.Var)
+					if fld == nil || !fld.IsField() {
+						continue
+					}
+					switch src[kit.ObjOf(info, kv.Value)] {
+					case emailT:
+						set(&email, fld)
+					case passT:
+						set(&pass, fld)
+					}
+				}
+			case *ast.CaseClause:
+				which := ""
+				for _, e := range x.List {
+					if v, ok := kit.ConstString(info, e); ok && (v == emailT || v == passT) {
+						which = v
+					}
+				}
+				if which == "" || len(x.List) != 1 {
+					return true
+				}
+				for _, st := range x.Body {
+					as, ok := st.(*ast.AssignStmt)
+					if !ok || len(as.Lhs) != 1 {
+						continue
+					}
+					sel, ok := ast.Unparen(as.Lhs[0]).(*ast.SelectorExpr)
+					if !ok {
+						continue
+					}
+					fld, _ := kit.ObjOf(info, sel).(*types.Var)
+					if fld == nil || !fld.IsField() || !c09IsString(fld.Type()) {
+						continue
+					}
+					if which == emailT {
+						set(&email, fld)
+					} else {
+						set(&pass, fld)
+					}
+				}
 			}
-			email, pass = e, p
-		}
+			return true
+		})
 	}
-	if email == nil {
-		c.Fatalf("struct of package data with point:%q and point:%q fields not found", emailT, passT)
+	if email == nil || pass == nil {
+		c.Fatalf("package data: fields filled from the %q / %q points not found", emailT, passT)
 	}
 	return email, pass
 }
@@ -736,6 +802,13 @@ func (a *c09Anchors) directSink(f *kit.Func, call *ast.CallExpr) string {
 // callees resolves the same-package callees of a call for reachability.
 func c09Callees(c *kit.Ctx, a *c09Anchors, f *kit.Func, call *ast.CallExpr) []*kit.Func {
 	if cf := f.CalleeFunc(call); cf != nil {
+		if a != nil {
+			for _, e := range a.entries {
+				if e == cf {
+					return nil // static delegation to another handler entry: checked there
+				}
+			}
+		}
 		if cf.PkgRel() == f.PkgRel() {
 			return []*kit.Func{cf}
 		}
